@@ -695,7 +695,7 @@ func (d *DefaultServerDispatcher) messagePump(stoppedC chan struct{}, timerC cha
 			clientCtx = d.dispatchNextRequest(clientID)
 			clientContextMap[clientID] = clientCtx
 			if clientCtx.isActive() {
-				go d.waitForTimeout(clientID, clientCtx, stoppedC)
+				go d.waitForTimeout(clientID, clientCtx, stoppedC, timerC)
 			}
 			// Update ready state
 			rdy = false
@@ -736,18 +736,20 @@ func (d *DefaultServerDispatcher) dispatchNextRequest(clientID string) (clientCt
 	return
 }
 
-func (d *DefaultServerDispatcher) waitForTimeout(clientID string, clientCtx clientTimeoutContext, stoppedC chan struct{}) {
+func (d *DefaultServerDispatcher) waitForTimeout(clientID string, clientCtx clientTimeoutContext, stoppedC chan struct{}, timerC chan timeoutToken) {
 	defer clientCtx.cancel()
 	log.Debugf("started timeout timer for %s", clientID)
 	select {
 	case <-clientCtx.ctx.Done():
 		err := clientCtx.ctx.Err()
 		if err == context.DeadlineExceeded {
-			// Timeout triggered, notifying messagePump
-			d.mutex.RLock()
-			defer d.mutex.RUnlock()
-			if d.running {
-				d.timerC <- timeoutToken{clientID: clientID, ctx: clientCtx.ctx}
+			// Timeout triggered, notifying messagePump.
+			// The channel is bounded and the message pump needs the dispatcher's lock to make progress:
+			// never wait for room in the channel while holding the lock (with more expiries waiting than the
+			// channel holds, the pump and every other user of the lock would wait for each other forever).
+			select {
+			case timerC <- timeoutToken{clientID: clientID, ctx: clientCtx.ctx}:
+			case <-stoppedC:
 			}
 		} else {
 			log.Debugf("timeout canceled for %s", clientID)
